@@ -1,2 +1,71 @@
-(** C06 -- theorems under construction *)
-From MX Require Import Exec.Model Exec.Spec Exec.Sim Exec.Top.
+(** C06 — a value edit discards exactly its dependents; inputs persist. *)
+From Coq Require Import List ZArith Bool.
+From MX Require Import Exec.Model Exec.Spec Exec.Sim Exec.Graph Exec.Cover Exec.Quiet Exec.Edits Exec.Edits3 Exec.Results Exec.Top.
+Import ListNotations.
+
+(** Clearing (the first half of assigning / overwriting) the value of element
+    [i]: exactly the held elements reachable from [i] along dependency edges —
+    which, by the coverage invariant, are the elements computed directly or
+    transitively from [i] — lose their value; every other held value is
+    untouched; no other input is lost; the invariant is kept. *)
+Theorem C06_discards_exactly_descendants : forall st i,
+  Quiet st -> has st i ->
+  let st' := clear_value_at st i true in
+  Quiet st' /\
+  (forall m, lookup_data (s_data st') m =
+             if mem_node (node_of m) (descs_with st (node_of i)) then None else lookup_data (s_data st) m) /\
+  (forall m, In (node_of m) (descs_with st (node_of i)) <-> path (s_edges st) (node_of i) (node_of m)) /\
+  (forall m, m <> i -> mem_item m (s_inputs st') = mem_item m (s_inputs st)).
+Proof. exact clear_exact. Qed.
+Print Assumptions C06_discards_exactly_descendants.
+
+(** the dependency edges are complete: every element an element's formula
+    read (directly or through uncached cells) has an edge to it, so an element
+    NOT reachable from [i] never read [i] *)
+Theorem C06_edges_cover_reads : forall st,
+  Quiet st ->
+  forall j v, lookup_data (s_data st) j = Some v -> mem_item j (s_inputs st) = false ->
+  exists f ds, Reads.dr_own f (defs_of st) (input_data st) j = (Val v, ds) /\ Forall (cov_rd st j) ds.
+Proof. intros st Q. exact (proj1 (proj2 (proj2 (proj2 (graph_matches_cache st Q))))). Qed.
+Print Assumptions C06_edges_cover_reads.
+
+(** the whole assignment, with both settings of the recalculation option:
+    the invariant is kept, hence kept values are served from the cache
+    (C01_computed_once) and recomputed ones equal the specification *)
+Theorem C06_set_value_keeps_invariant : forall fuel st i v x st',
+  step fuel st (OpSetValue i v) = (x, st') -> x <> OFuel -> Quiet st -> s_reent st = false ->
+  s_reent st' = true \/ Quiet st'.
+Proof. intros. eapply step_quiet; eauto. exact I. Qed.
+Print Assumptions C06_set_value_keeps_invariant.
+
+(** an assigned value is what the cells returns for those arguments, whatever
+    its formula, and no formula runs *)
+Theorem C06_input_returned : forall fuel st i v cl,
+  lookup_cell (s_cells st) (fst i) = Some cl -> cl_cached cl = true ->
+  lookup_data (s_data st) i = Some v -> eval_top fuel st i = (Val v, st).
+Proof. exact input_returned. Qed.
+Print Assumptions C06_input_returned.
+
+(** clear() never loses a user-assigned value *)
+Theorem C06_clear_keeps_inputs : forall st c m,
+  Quiet st -> mem_item m (s_inputs st) = true ->
+  let st' := clear_all_values st c false in
+  mem_item m (s_inputs st') = true /\ lookup_data (s_data st') m = lookup_data (s_data st) m.
+Proof. exact clear_keeps_inputs. Qed.
+Print Assumptions C06_clear_keeps_inputs.
+
+(** NOT proved: that no *spurious* edge exists (exactness in the other
+    direction: graph descendants = true dependents, not a superset); inputs
+    surviving reference changes (reference edits are outside [op_ok]).
+    Non-vacuity: chain c0 <- c1 <- c2, overwrite c0. *)
+Definition ex6_cells : list (cid * cell) :=
+  [ (0, mkCell [SAssign (EConst (VInt 1))] 0 [] true false 0);
+    (1, mkCell [SAssign (EBin Add (ECall 0 []) (EConst (VInt 1)))] 0 [] true false 0);
+    (2, mkCell [SAssign (EBin Add (ECall 1 []) (EConst (VInt 1)))] 0 [] true false 0);
+    (3, mkCell [SAssign (EConst (VInt 9))] 0 [] true false 0) ].
+Example C06_example :
+  let r := run 100 (init ex6_cells [] 50) [OpEval (2, []); OpEval (3, []); OpSetValue (0, []) (VInt 10); OpEval (2, [])] in
+  fst r = [OVal (VInt 3); OVal (VInt 9); OOk; OVal (VInt 12)]
+  /\ map fst (s_data (snd (run 100 (init ex6_cells [] 50) [OpEval (2, []); OpEval (3, []); OpSetValue (0, []) (VInt 10)])))
+     = [(3, []); (0, [])].
+Proof. vm_compute. split; reflexivity. Qed.
